@@ -11,9 +11,9 @@ TRUSTED_BASE = [
 
 A_HASH = "A-hash: hash_key (salted Blake2b / SipHash) is injective on the keys of a history (checked dynamically: distinct generated keys never collide in the runs)"
 A_COMPRESS = "A-compress: decompress(compress v) = v for lz4 / snappy (exercised by every round trip in the runs)"
-P2_GAP = ("physical layers below the logical pipeline: for plain hash columns with single-slot values the index pages + byte-level value tables refine P1's "
-          "logical table (Pdb/Props/Refine.lean R1-R4); multipart values, rc / preimage / btree / multitree columns and the WAL byte format are tied to P1 "
-          "by correspondence only")
+P2_GAP = ("physical layers below the logical pipeline: for plain hash columns the index pages + byte-level value tables (single-slot values and multipart "
+          "chains alike) refine P1's logical table (Pdb/Props/Refine.lean R1-R4, R3_composed_full); rc / preimage / btree / multitree columns and the WAL "
+          "byte format are tied to P1 by correspondence only")
 
 P1_RULE = ("histories generated from one SplitMix64 state: commits of 1..6 ops over 1..3 columns and a small key pool "
            "(repeated keys, removals, invalid ops ~3%), interleaved with process / flush / enactall / clean / reindex / "
@@ -464,7 +464,10 @@ PROPS = {
                  "sizes (0 B, 1 MiB, 17 MiB, 17x1 MiB, 24 MiB transactions in a row: queue-full throttle), logs / keeplogs "
                  "(bursts with always_flush, many log files in flight, KEEP_LOGS retained with sync_data=false, drop "
                  "immediately), logs-nothread (stepping API, > MAX_LOG_FILES enacted files, commit queued, drop), shutdown "
-                 "(drop at a random moment between commit calls of active committers), bgerr / errfull (directory renamed "
+                 "(drop at a random moment between commit calls of active committers), quiesce (sync_data, always_flush: the commit "
+                 "worker is stalled by a parked value iteration while 6..26 flushed log files pile up, the iteration is released and "
+                 "the client goes quiet WITHOUT dropping: every log file must be reclaimed within 12 s), exact (queue drains to exactly "
+                 "the 16 MiB limit), bgerr / errfull (directory renamed "
                  "under the running handle: a worker fails; commits must return Ok or Err(Background)); always_flush, "
                  "sync_wal, sync_data random; oracle: every call returns, drop returns, every Ok-committed key has its last "
                  "Ok-committed value after reopen (BTreeMap); non-trivial = at least one commit accepted"),
